@@ -453,6 +453,7 @@ func main() {
 		"strings/[]byte with valid, truncated, overlong, surrogate and out-of-range UTF-8; []rune with invalid code points; floats incl. values needing rounding, in the thorough tier also PRNG floats with 24-bit mantissas and exponents -30..40 (float->integer only when the truncated value fits the target; no float overflow); "+
 		"three operand modes: variable (non-constant), typed constant S(lit), untyped constant lit; every Eval is `hook(); T(x)`: a rejected conversion must not run the hook; "+
 		"oracle: go/types (compiles or not) + one compiled Go program (values as canonical text, IEEE bit patterns) + static result type name; corpus/C03/*.json replayed first. "+
+		"stream constedge (differential only): untyped float/complex constants at the edges of float32/float64/complex64/complex128 (and named variants): underflow to zero (1e-400, 1e-5000, products), the rounding boundary of the smallest subnormal (half, just above half, 1.5x, quarter), -0.0, max, overflow (compile error expected), with both signs, in real / imaginary / both parts, converted explicitly T(c) and implicitly (var x T = c, return c, const k T = c, x = c), observed as IEEE bits and through 1/x (sign of zero: +Inf / -Inf); "+
 		"A case is non-trivial when source and target types differ and Go accepts it; distinct by SHA-256 of mode+expression")
 	ir = fast.New()
 	ir.Comp.Globals.Stderr = io.Discard
@@ -521,6 +522,12 @@ func main() {
 		}
 	}
 
+	// constedge.go: untyped float/complex constants at the underflow / overflow edges of the target, both signs
+	for _, e := range constEdgeExprs() {
+		add(&ccase{Mode: "constedge", Expr: e})
+		rep.Dist("stream:constedge")
+	}
+
 	typeCheck(cases, rep)
 	compileBatch(a.Path("oracle"), cases, rep)
 	// the watchdog guards the implementation only: it starts after the (slow, load-dependent) oracle build,
@@ -546,7 +553,7 @@ func main() {
 			}
 		}
 		evalGomacro(c)
-		rep.Count(c.key(), c.goOK && c.S != c.T)
+		rep.Count(c.key(), c.goOK && (c.S != c.T || c.Mode == "constedge"))
 		rep.Dist("mode:" + c.Mode)
 		switch {
 		case !c.goOK:
@@ -568,14 +575,14 @@ func main() {
 			if !c.hookRan {
 				fail(c, "hook did not run although the evaluation succeeded (harness broken)", nil, nil)
 			}
-			if c.Mode != "corpus" && c.gmType != c.T && !(c.t.Decl == "" && strings.Contains(c.gmType, c.t.Under)) && !aliasName(c.gmType, c.T) {
+			if c.Mode != "corpus" && c.Mode != "constedge" && c.gmType != c.T && !(c.t.Decl == "" && strings.Contains(c.gmType, c.t.Under)) && !aliasName(c.gmType, c.T) {
 				fail(c, "static result type differs", c.gmType, c.T)
 			}
 		}
 		if c.Idx%301 == 7 {
 			rep.Sample(map[string]string{"expr": c.Expr, "setup": c.Setup, "gomacro": c.gmCanon, "go": c.goCanon})
 		}
-		if c.Mode == "corpus" {
+		if c.Mode == "corpus" || c.Mode == "constedge" {
 			continue
 		}
 		// ---- model cases (observations are gomacro's)
